@@ -330,8 +330,8 @@ func (P *Program) paramNames(sp *FuncSpec, fn *ssa.Function, cc *ssa.CallCommon)
 		}
 		return names
 	}
-	// interface method: receiver is "self", then declared parameter names of the method
-	names = append(names, "self")
+	// interface method: receiver is "recv", then declared parameter names of the method
+	names = append(names, "recv")
 	sig := cc.Method.Type().(*types.Signature)
 	for i := 0; i < sig.Params().Len(); i++ {
 		n := sig.Params().At(i).Name()
